@@ -5,6 +5,7 @@ package props
 import (
 	"fmt"
 	"math/big"
+	"sync"
 
 	"github.com/bytemare/secp256k1"
 	"github.com/bytemare/secp256k1/zz_verif/gen"
@@ -20,6 +21,8 @@ type c11Case struct {
 	X     string `json:"x,omitempty"`
 	Odd   uint   `json:"odd,omitempty"`
 	Class string `json:"class"`
+	// Conc: field elements mapped simultaneously, one goroutine each (Kind == "concurrent").
+	Conc []string `json:"concurrent,omitempty"`
 }
 
 func init() {
@@ -29,12 +32,12 @@ func init() {
 		Rule: "sswu cases = field elements u: the three exceptional inputs 0 and ±sqrt(-1/Z) (computed by the oracle), ±1, ±2, the structured list mod p (boundaries, 2^k, 2^k±1, p-2^k, limb-perturbed p, R mod p), " +
 			"Montgomery-structured values, (u,-u) pairs, PRNG values; each is mapped by SSWU and then by the isogeny. iso cases = points of E' constructed by the oracle from chosen abscissae (structured + PRNG, both signs), not only SSWU outputs. " +
 			"Oracle: RFC 9380 6.6.2 (non-optimised: inv0, is_square, sqrt, sgn0) and the E.1 rational map in math/big; checks: SSWU output equals the oracle's point, lies on E', sgn0(y)=sgn0(u); isogeny output equals the oracle's, is a valid canonical point with y^2=x^3+7; no panic. " +
-			"non-trivial = all; distinct by input.",
+			"Concurrent batches: 8 goroutines run the whole map (SSWU then isogeny) simultaneously on their own inputs, each output judged against the oracle. non-trivial = all; distinct by input.",
 		NewCase:  func() any { return &c11Case{} },
 		Generate: c11Generate,
 		Run:      c11Run,
 		Require: func(string) map[string]int64 {
-			return map[string]int64{"sswu": 3000, "sswu:exceptional": 3, "sswu:gx1-square": 1000, "sswu:gx1-nonsquare": 1000, "sswu:flipped": 500, "sswu:not-flipped": 500, "iso": 3000, "sswu:sgn0(u)=1": 500, "sswu:sgn0(u)=0": 500}
+			return map[string]int64{"sswu": 3000, "sswu:exceptional": 3, "sswu:gx1-square": 1000, "sswu:gx1-nonsquare": 1000, "sswu:flipped": 500, "sswu:not-flipped": 500, "iso": 3000, "sswu:sgn0(u)=1": 500, "sswu:sgn0(u)=0": 500, "concurrent-batches": 4}
 		},
 	})
 }
@@ -79,6 +82,17 @@ func c11Generate(c *mon.Ctx) {
 		emitX(v.X, v.Class)
 	}
 
+	cr := c.SharedRng("concurrent")
+
+	for b := 0; b < c.N(8, 400); b++ {
+		cs := &c11Case{Kind: "concurrent", Class: "concurrent"}
+		for g := 0; g < 8; g++ {
+			cs.Conc = append(cs.Conc, hx(gen.Draw(cr, p).X))
+		}
+
+		c.Structured(func() any { return cs })
+	}
+
 	c.Random(c.N(60000, 6000000), func(r *gen.Rng) any {
 		v := gen.Draw(r, p)
 		if r.Bool() {
@@ -100,6 +114,11 @@ func c11Run(c *mon.Ctx, csAny any) {
 		e  *secp256k1.Element
 		qp oracle.Pt // the point on E' the isogeny is applied to
 	)
+
+	if cs.Kind == "concurrent" {
+		c11RunConcurrent(c, cs)
+		return
+	}
 
 	switch cs.Kind {
 	case "sswu":
@@ -220,4 +239,65 @@ func c11Run(c *mon.Ctx, csAny any) {
 	if c.WantSample() && (cs.Class == "exceptional" || cs.Class == "mont-structured") {
 		c.Sample(map[string]any{"case": cs, "point_on_isogenous_curve": qp.String(), "image_on_secp256k1": want.String()})
 	}
+}
+
+func c11RunConcurrent(c *mon.Ctx, cs *c11Case) {
+	type job struct {
+		u    *big.Int
+		want oracle.Pt
+		got  oracle.Pt
+		ok   bool
+		pan  any
+	}
+
+	jobs := make([]*job, len(cs.Conc))
+	for i, h := range cs.Conc {
+		u := mon.BigH(h)
+		q, _ := oracle.SSWU(u)
+		jobs[i] = &job{u: u, want: oracle.Iso(q)}
+	}
+
+	c.Count("concurrent-batches")
+
+	start := make(chan struct{})
+
+	var wg sync.WaitGroup
+
+	for _, j := range jobs {
+		wg.Add(1)
+
+		go func(j *job) {
+			defer wg.Done()
+			defer func() { j.pan = recover() }()
+			<-start
+
+			for rep := 0; rep < 50; rep++ {
+				e := secp256k1.IsogenySecp256k13iso(secp256k1.SSWU(mon.FE(j.u)))
+				j.got, j.ok = mon.RawValue(e)
+
+				if !j.ok || !j.got.Equal(j.want) {
+					return
+				}
+			}
+		}(j)
+	}
+
+	close(start)
+	wg.Wait()
+
+	for i, j := range jobs {
+		c.Eval(50)
+
+		if j.pan != nil {
+			c.Fail(fmt.Sprintf("map-to-curve panicked when %d goroutines mapped simultaneously: %v", len(jobs), j.pan), "map-concurrent-panic", nil)
+			return
+		}
+
+		if !j.ok || !j.got.Equal(j.want) {
+			c.Fail(fmt.Sprintf("map-to-curve of u=%x is wrong or off-curve when %d goroutines map simultaneously (job %d): got %s (valid point: %v), want %s", j.u, len(jobs), i, j.got, j.ok, j.want), "map-concurrent-value", nil)
+			return
+		}
+	}
+
+	c.Seen(cs.Conc)
 }
